@@ -52,7 +52,8 @@ def foldTailNext (info : ColInfo) : Option (Nat × Nat) → ColInfo
         { info with curIdx := k, curOff := min toff used }
       | none => { info with curIdx := 0, curOff := 0 }
 
-def setIndex (i : Inst) (t : Topic) (pos : Pos) : Inst := { i with index := i.index.insert t pos }
+def setIndex (i : Inst) (t : Topic) (pos : Pos) : Inst :=
+  { i with index := i.index.insert t pos, idxLog := i.idxLog ++ [(t, pos)] }
 
 def putReader (i : Inst) (t : Topic) (info : ColInfo) : Inst := { i with readers := i.readers.insert t info }
 
